@@ -135,7 +135,10 @@ func generateMore(suite string, seed uint64, i int, r *rng, id string, g gp) *Ca
 		cfg := genCfg(r, cp{p1: []int{0, 1}, p2: []int{0, 1}, p4: sizeAware, p5: []int{0, 1, 2}, sizes: 1, virt: 1, trace: true, mon: true}, names)
 		return lay(cfg, edges)
 	case "c10": // network simplex layering, graphs that need pivots
-		g.kind = []int{3, 3, 1, 0}[r.intn(4)]
+		g.kind = []int{3, 3, 1, 1, 0}[r.intn(5)]
+		if r.chance(2, 3) {
+			g.maxN, g.maxM = 14, 28
+		}
 		g.selfLoops = r.chance(1, 4)
 		edges, names := genGraph(r, g)
 		cfg := genCfg(r, cp{p1: []int{0, 1}, p2: []int{0}, p4: []int{1}, p5: []int{4}, trace: true, mon: true}, names)
